@@ -33,7 +33,7 @@ func init() {
 		Strata: []fw.Stratum{
 			{Name: "fixed-start-all-65536", N: fw.Const(256, 256), Run: c07Fixed, Exhaustive: true},
 			{Name: "long-walks", N: fw.Const(6, 40), Run: c07Walk},
-			{Name: "random-sequencers", N: fw.Const(100, 1000), Run: c07Random},
+			{Name: "random-sequencers", N: fw.Const(400, 4000), Run: c07Random},
 			{Name: "concurrent-short-histories", N: fw.Const(10000, 200000), Run: c07Short, Race: true, Serial: true},
 			{Name: "concurrent-long-histories", N: fw.Const(3, 100), Run: c07Long, Race: true, Serial: true},
 		},
@@ -116,7 +116,7 @@ func c07Walk(c *fw.Ctx, i int) {
 }
 
 func c07Random(c *fw.Ctx, i int) {
-	for k := 0; k < 1000; k++ {
+	for k := 0; k < 2000; k++ {
 		seq := rtp.NewRandomSequencer()
 		v := seq.NextSequenceNumber()
 		c.Evals(1)
